@@ -49,6 +49,7 @@ type FuncContract struct {
 	HasMod   bool
 	Lets     []Clause // Label = name
 	Loops    map[int][]Clause
+	LoopExits map[int][]Clause // loop N exit: asserted on every edge that leaves the loop
 	Foreach  []Clause // templates with $src / $dst, instantiated for loops of the append-each idiom
 	Trusted  bool
 	File     string
@@ -108,6 +109,7 @@ var (
 	reLabel     = regexp.MustCompile(`^([A-Za-z_][A-Za-z0-9_]*):\s+(.*)$`)
 	rePure      = regexp.MustCompile(`^(pure|pred|uninterp)\s+(?:func\s+)?(?:\(\s*(\w+)\s+(\*?[\w.]+)\s*\)\s+)?(\w+)\s*\(([^)]*)\)\s*([\w.*\[\]]*)\s*(?:\{(.*)\}\s*)?$`)
 	reLoop      = regexp.MustCompile(`^loop\s+(\d+)\s+invariant\s+(.*)$`)
+	reLoopExit  = regexp.MustCompile(`^loop\s+(\d+)\s+exit\s+(.*)$`)
 	reGhost     = regexp.MustCompile(`^ghost\s+var\s+(\w+)\s+([\w.*\[\]]+)\s*$`)
 	reLet       = regexp.MustCompile(`^let\s+(\w+)\s*:=\s*(.*)$`)
 	keywordsSet = map[string]bool{"package": true, "func": true, "trusted": true, "requires": true, "ensures": true, "modifies": true,
@@ -287,6 +289,19 @@ func (db *ContractDB) loadContractFile(path, pkg string) error {
 		case "loop":
 			if cur == nil {
 				return fail(fmt.Errorf("loop outside func"))
+			}
+			if mx := reLoopExit.FindStringSubmatch(rc.text); mx != nil {
+				// loop N exit label: expr — holds whenever the loop is left (checked on every exit edge)
+				n, _ := strconv.Atoi(mx[1])
+				c, err := mk(mx[2])
+				if err != nil {
+					return fail(err)
+				}
+				if cur.LoopExits == nil {
+					cur.LoopExits = map[int][]Clause{}
+				}
+				cur.LoopExits[n] = append(cur.LoopExits[n], c)
+				continue
 			}
 			m := reLoop.FindStringSubmatch(rc.text)
 			if m == nil {
